@@ -10,6 +10,7 @@ import (
 	sdkmath "cosmossdk.io/math"
 	sdk "github.com/cosmos/cosmos-sdk/types"
 	banktypes "github.com/cosmos/cosmos-sdk/x/bank/types"
+	slashingtypes "github.com/cosmos/cosmos-sdk/x/slashing/types"
 	"github.com/ethereum/go-ethereum/accounts/abi"
 	"github.com/ethereum/go-ethereum/common"
 
@@ -172,7 +173,14 @@ func (r *Run) withdrawable(ctx sdk.Context, stakerID, assetID string) *big.Int {
 }
 
 // position returns the redeemable token amount of a staker's delegation to an operator.
-func (r *Run) position(ctx sdk.Context, stakerID, assetID string, op sdk.AccAddress) *big.Int {
+func (r *Run) position(ctx sdk.Context, stakerID, assetID string, op sdk.AccAddress) (res *big.Int) {
+	defer func() {
+		// the repository's conversion helper panics ("Int overflow") for pool amounts near 2^255;
+		// for argument resolution that simply means "no usable position"
+		if rec := recover(); rec != nil {
+			res = new(big.Int)
+		}
+	}()
 	d, err := r.Node.App.DelegationKeeper.GetSingleDelegationInfo(ctx, stakerID, assetID, op.String())
 	if err != nil || d == nil {
 		return new(big.Int)
@@ -354,7 +362,7 @@ func (r *Run) Build(ctx sdk.Context, op Op) (*BuiltTx, error) {
 			base = r.position(ctx, bt.StakerID, bt.AssetID, o.Addr)
 		}
 		bt.Amount = ResolveAmt(op.Amt, base)
-		kvs := []delegationtypes.KeyValue{{Key: o.Addr.String(), Value: &delegationtypes.ValueField{Amount: sdkmath.NewIntFromBigInt(bt.Amount)}}}
+		kvs := []delegationtypes.KeyValue{{Key: o.Addr.String(), Value: &delegationtypes.ValueField{Amount: safeInt(bt.Amount)}}}
 		if op.Amt2 != "" {
 			o2 := w.Op(op.C2)
 			var base2 *big.Int
@@ -365,7 +373,7 @@ func (r *Run) Build(ctx sdk.Context, op Op) (*BuiltTx, error) {
 			}
 			bt.Amount2 = ResolveAmt(op.Amt2, base2)
 			bt.Operator2 = o2.Addr
-			kvs = append(kvs, delegationtypes.KeyValue{Key: o2.Addr.String(), Value: &delegationtypes.ValueField{Amount: sdkmath.NewIntFromBigInt(bt.Amount2)}})
+			kvs = append(kvs, delegationtypes.KeyValue{Key: o2.Addr.String(), Value: &delegationtypes.ValueField{Amount: safeInt(bt.Amount2)}})
 		}
 		info := &delegationtypes.DelegationIncOrDecInfo{FromAddress: n.Addr.String(), PerOperatorAmounts: kvs}
 		var msg sdk.Msg
@@ -411,12 +419,17 @@ func (r *Run) Build(ctx sdk.Context, op Op) (*BuiltTx, error) {
 		return bt, r.cosmosTx(ctx, o.Account, bt, &operatortypes.RegisterOperatorReq{FromAddress: o.Addr.String(), Info: &operatortypes.OperatorInfo{
 			EarningsAddr: o.Addr.String(), OperatorMetaInfo: o.Name,
 		}})
+	case "unjail":
+		o := w.Op(op.A)
+		bt.Operator = o.Addr
+		bt.Method = "MsgUnjail"
+		return bt, r.cosmosTx(ctx, o.Account, bt, slashingtypes.NewMsgUnjail(sdk.ValAddress(o.Addr)))
 	case "send":
 		u := w.Users[((op.A%len(w.Users))+len(w.Users))%len(w.Users)]
 		v := w.Users[((op.C%len(w.Users))+len(w.Users))%len(w.Users)]
 		bt.Amount = ResolveAmt(op.Amt, big.NewInt(1_000_000))
 		bt.Method = "MsgSend"
-		return bt, r.cosmosTx(ctx, u, bt, banktypes.NewMsgSend(u.Addr, v.Addr, sdk.NewCoins(sdk.NewCoin("hua", sdkmath.NewIntFromBigInt(bt.Amount)))))
+		return bt, r.cosmosTx(ctx, u, bt, banktypes.NewMsgSend(u.Addr, v.Addr, sdk.NewCoins(sdk.NewCoin("hua", safeInt(bt.Amount)))))
 	case "replay":
 		// re-submit the bytes of an earlier transaction of this run
 		if len(r.History) == 0 {
@@ -443,4 +456,13 @@ func (r *Run) avsAddr(s string) string {
 		return r.W.DogfoodAVS
 	}
 	return s
+}
+
+// safeInt converts to sdk Int, clamping to the representable range (2^255).
+func safeInt(b *big.Int) sdkmath.Int {
+	max := new(big.Int).Lsh(big.NewInt(1), 255)
+	if b.Cmp(max) > 0 {
+		b = max
+	}
+	return sdkmath.NewIntFromBigInt(b)
 }
